@@ -82,18 +82,37 @@ let run path =
       | ["boxrecv"; k; c; tq; sq] ->
         incr cases;
         let c = conn (int_of_string c) in
+        (* what is queued (QoS as published) and the subscriptions the broker caps with when it dequeues *)
+        let (orig, subs) = (match session_of !st c with
+            | Some (_, s) -> (s.s_tq @ s.s_sq, s.s_subs) | None -> ([], [])) in
         let mt = drain_model c true [] in
         let ms = drain_model c false [] in
         let it = D.msgs_of_s tq and is = D.msgs_of_s sq in
         let live l = L.filter (fun m -> not m.m_retain) l in
+        (* the property's own judgement of a delivered QoS: min(published, granted) for ONE of the matching filters
+           (the published QoS if none matches) *)
+        let qos_allowed (m : message) =
+          match L.find_opt (fun o -> strip_qos o = strip_qos m) orig with
+          | None -> true
+          | Some o ->
+            let grants = L.filter_map (fun (f, q) -> if MatchSpec.topic_matches f o.m_topic then Some q else None) subs in
+            let mn a b = if int_of_n a <= int_of_n b then a else b in
+            if grants = [] then m.m_qos = o.m_qos else L.exists (fun q -> m.m_qos = mn o.m_qos q) grants in
         (* stored queue and the live part of the temporary queue: same messages in the same order *)
         if L.map strip_qos ms <> L.map strip_qos is || L.map strip_qos (live mt) <> L.map strip_qos (live it) then
           fail "delivery" k "peer %s: model t=%s s=%s  received t=%s s=%s" (D.s_of_n c) (D.s_of_msgs mt) (D.s_of_msgs ms) tq sq
         else if L.sort compare (L.map strip_qos mt) <> L.sort compare (L.map strip_qos it) then
           fail "retained" k "peer %s: model t=%s  received t=%s" (D.s_of_n c) (D.s_of_msgs mt) tq
-        else if (let nomark l = L.filter (fun m -> not (is_marker m)) l in
-                 L.map msg_key (nomark ms) <> L.map msg_key (nomark is) || sorted_msgs (nomark mt) <> sorted_msgs (nomark it)) then
-          fail "qos" k "peer %s: model t=%s s=%s  received t=%s s=%s" (D.s_of_n c) (D.s_of_msgs mt) (D.s_of_msgs ms) tq sq
+        else begin
+          let nomark l = L.filter (fun m -> not (is_marker m)) l in
+          if not (L.for_all qos_allowed (nomark (it @ is))) then
+            fail "qos" k "peer %s: model t=%s s=%s  received t=%s s=%s" (D.s_of_n c) (D.s_of_msgs mt) (D.s_of_msgs ms) tq sq
+          else if L.map msg_key (nomark ms) <> L.map msg_key (nomark is) || sorted_msgs (nomark mt) <> sorted_msgs (nomark it) then begin
+            (* allowed by the property, but not what the model (MatchFirst as coded) predicts: the tie is broken *)
+            incr diffs;
+            Printf.printf "diff %s delivered QoS differs from the model's (allowed by the property) peer %s: model t=%s s=%s received t=%s s=%s\n"
+              k (D.s_of_n c) (D.s_of_msgs mt) (D.s_of_msgs ms) tq sq end
+        end
       | _ -> ()) (read_lines path);
   Printf.printf "done cases=%d diffs=%d propfails=%d distinct=%d\n" !cases !diffs !fails !scen
 
